@@ -764,6 +764,23 @@ pub(crate) fn check_if_response_is_matched(
         }
     }
 
+    // Without reorg headers the response claims that the start block is an ancestor of the last
+    // block, so a returned header at the start number has to be the start block itself.
+    // (There are no reorg headers before block#1: a fork at block#1 is handled by the caller.)
+    if reorg_count == 0 && start_number > 1 {
+        let first_header = headers[0].header();
+        if first_header.number() == start_number && first_header.hash() != prev_request.start_hash()
+        {
+            let errmsg = format!(
+                "failed to verify reorg last n headers since there are none but block#{}                 (hash: {:#x}) isn't the start block (hash: {:#x})",
+                start_number,
+                first_header.hash(),
+                prev_request.start_hash(),
+            );
+            return Err(StatusCode::InvalidReorgHeaders.with_context(errmsg));
+        }
+    }
+
     let (sampled_count, last_n_count) = if total_count - reorg_count > last_n_blocks {
         let difficulty_boundary: U256 = prev_request.difficulty_boundary().unpack();
         // The reorg headers are before the start block, whatever total difficulties they claim.
